@@ -86,7 +86,8 @@ Ante(c, T, e) ==
 \* known findings: signature of the failing trace
 SigOf(c, T, e) ==
   IF c \in {"C15_Complete", "C15_NoDup", "C15_Resend"} /\ e.k = "end" /\ e.joined /\ fw.m110bad THEN "M110Corrupted"
-  ELSE IF c = "C15_Complete" /\ e.k = "end" /\ e.joined /\ fw.piped THEN "TransmittedWhileInFlight"
+  \* running ahead also makes the host end the job before a late resend request reaches it
+  ELSE IF c \in {"C15_Complete", "C15_Resend"} /\ e.k = "end" /\ e.joined /\ fw.piped THEN "TransmittedWhileInFlight"
   ELSE ""
 
 NextFw(e) ==
